@@ -1,4 +1,64 @@
-From KD Require Import C04.Model C04.Spec.
-(* placeholder until Proofs.v exists *)
-Theorem placeholder_C05 : True. Proof. exact I. Qed.
-Print Assumptions placeholder_C05.
+(* Property C05 — interleaved scheduler: side passes run exactly when due, whole,
+   and unmixed.  Theorems only. *)
+From Coq Require Import ZArith List Bool.
+Import ListNotations.
+From KD Require Import C04.Model C04.Spec C04.Lists C04.Arith C04.Sides C04.Proofs C04.Corollaries C04.Example.
+Open Scope Z_scope.
+
+(* the model IS the spec; in the spec every update is followed by
+   [passes_from 0 (sides c) k] = for each config in order, its whole pass iff due *)
+Theorem c05_model_is_spec : forall c mi, WF c mi -> forall n e,
+  run c mi n (init_state e (upe c * e) (spe c * e)) = spec_run c mi e n.
+Proof. exact model_eq_spec. Qed.
+Print Assumptions c05_model_is_spec.
+
+(* after every main update, and only there: the non-main part of an update is
+   exactly the passes of the due configs, in config order *)
+Theorem c05_update_side_part : forall c e bs j,
+  filter (fun x => negb (is_main x)) (u_events (upd_at c e bs j))
+  = passes_from c 0 (sides c) (counters_at c e bs j).
+Proof. exact update_side_part. Qed.
+Print Assumptions c05_update_side_part.
+
+(* due = one of the config's intervals was reached or crossed by this update *)
+Theorem c05_due_iff_reached_or_crossed : forall sc k, (forall n, ens sc = Some n -> 0 < n) ->
+  due sc k = true <->
+  (exists n, ene sc = Some n /\ k_epoch_end k = true /\ k_epoch k mod n = 0) \/
+  (exists n, enu sc = Some n /\ k_update k mod n = 0) \/
+  (exists n m, ens sc = Some n /\ k_prev_sample k < m * n <= k_sample k).
+Proof. exact due_iff. Qed.
+Print Assumptions c05_due_iff_reached_or_crossed.
+
+(* the implementation's per-config pass (running counter, modulo test) is the
+   spec's pass: all indices, shifted into the config's range, cut by the config's
+   (else the main) batch size with a short final batch *)
+Theorem c05_pass_batching : forall c mi, WF c mi -> forall ci sc, wf_side sc ->
+  side_pass c ci (offset_of c ci) sc = side_events c ci sc.
+Proof. exact side_pass_eq. Qed.
+Print Assumptions c05_pass_batching.
+
+Theorem c05_pass_is_whole : forall c ci sc, 0 < or_default (sbs sc) (cB c) ->
+  map ev_idx (side_events c ci sc) = map (Z.add (offset_of c ci)) (sidx sc).
+Proof. exact side_pass_whole. Qed.
+Print Assumptions c05_pass_is_whole.
+
+(* every yielded index resolves to the dataset and sample it was drawn for *)
+Theorem c05_offset_roundtrip : forall c mi ci sc j, WF c mi ->
+  nth_error (sides c) ci = Some sc -> 0 <= j < dslen sc ->
+  concat_lookup c (offset_of c ci + j) = Some (S ci, j).
+Proof. exact offset_roundtrip. Qed.
+Print Assumptions c05_offset_roundtrip.
+
+Theorem c05_main_roundtrip : forall c j, 0 <= j < dsN c -> concat_lookup c j = Some (0%nat, j).
+Proof. exact main_roundtrip. Qed.
+Print Assumptions c05_main_roundtrip.
+
+(* a zero budget yields exactly one full pass over every config *)
+Theorem c05_zero_budget_one_pass : forall c mi, WF c mi -> zero_budget c = true ->
+  sampler_iter c mi 0 0 0 = Some (spec_eval c 0 (sides c)).
+Proof. exact zero_budget_one_pass. Qed.
+Print Assumptions c05_zero_budget_one_pass.
+
+Example c05_premises_satisfiable :
+  WF ex_cfg ex_iter /\ wf_side ex_side /\ nth_error (sides ex_cfg) 1 = Some ex_side /\ 0 <= 3 < dslen ex_side.
+Proof. split; [exact ex_wf|]. split; [exact ex_side_wf|]. split; [reflexivity|]. cbn. split; reflexivity || discriminate. Qed.
